@@ -537,12 +537,12 @@ Definition export_eqb (a b : export) : bool :=
 
 (* clauses of the property, by what was varied between the base run and the other run *)
 Inductive clause := CRepeat | CHashSeed | CProgress | CLogging | CWorkers | CWorkersFrom2 | CWorkersIsolated | CFacade
-                  | CWorkersRepeat.
+                  | CWorkersRepeat | CSameInterpreter.
 Definition clause_eqb (a b : clause) : bool :=
   match a, b with
   | CRepeat, CRepeat | CHashSeed, CHashSeed | CProgress, CProgress | CLogging, CLogging
   | CWorkers, CWorkers | CWorkersFrom2, CWorkersFrom2 | CWorkersIsolated, CWorkersIsolated
-  | CFacade, CFacade | CWorkersRepeat, CWorkersRepeat => true
+  | CFacade, CFacade | CWorkersRepeat, CWorkersRepeat | CSameInterpreter, CSameInterpreter => true
   | _, _ => false
   end.
 
@@ -691,9 +691,10 @@ Definition holds_clause (cl : clause) (cs : case) : bool :=
 Definition holds_b (cs : case) : bool :=
   forallb (fun cl => holds_clause cl cs)
           [CRepeat; CHashSeed; CProgress; CLogging; CWorkers; CWorkersFrom2; CWorkersIsolated; CFacade;
-           CWorkersRepeat].
+           CWorkersRepeat; CSameInterpreter].
 
 Definition verdicts (cs : case) : list bool :=
   [agree cs; holds_clause CRepeat cs; holds_clause CHashSeed cs; holds_clause CProgress cs;
    holds_clause CLogging cs; holds_clause CWorkers cs; holds_clause CWorkersFrom2 cs;
-   holds_clause CWorkersIsolated cs; holds_clause CFacade cs; holds_clause CWorkersRepeat cs].
+   holds_clause CWorkersIsolated cs; holds_clause CFacade cs; holds_clause CWorkersRepeat cs;
+   holds_clause CSameInterpreter cs].
